@@ -127,6 +127,23 @@ def case_dump_one(case):
         feats["klass"] = "needs-conversion"
     else:
         data, feats = go.make(fmt, rng, klass)
+    # every key of `extra` that the writer of this format reads (found by reading the writers), with plausible values
+    if case["i"] % 2 == 0:
+        ex = dict(data.extra or {})
+        if fmt == "wfn" and data.mo is not None and data.mo.kind != "generalized":
+            ex.setdefault("virial_ratio", 2.0003)
+            ex["mo_spin"] = (np.full(data.mo.norb, 3) if data.mo.kind == "restricted"
+                             else np.array([1] * data.mo.norba + [2] * data.mo.norbb))
+        elif fmt == "wfx":
+            ex.update({"keywords": "GTO", "num_perturbations": 0, "model_name": "Restricted HF", "virial_ratio": 2.0003,
+                       "nuc_viral": -0.5, "full_virial_ratio": 2.0004, "num_core_electrons": 0})
+        elif fmt == "fchk":
+            ex["polarizability_tensor"] = np.arange(9.0).reshape(3, 3) + np.arange(9.0).reshape(3, 3).T
+        elif fmt == "pdb":
+            ex.setdefault("compound", "GENERATED COMPOUND")
+        if ex != (data.extra or {}):
+            data.extra = ex
+            feats["extra_keys"] = "all-recognised"
     if case["i"] % 4 == 1:
         go.relayout(data, gb.rng_for(9, 77, case["seed"], case["i"]))  # equal arrays in Fortran order / strided views
         feats["layout"] = "non-contiguous"
